@@ -112,7 +112,7 @@ Qed.
 (* the handler never indexes an empty string: FixTrailingSlash never returns "" *)
 Lemma fix_trailing_slash_nonempty p : fix_trailing_slash p <> [].
 Proof.
-  unfold fix_trailing_slash. destruct (Nat.ltb 1 (length p) && last_is_slash p) eqn:E.
+  unfold fix_trailing_slash. destruct (Nat.ltb 1 (List.length p) && last_is_slash p) eqn:E.
   - apply andb_true_iff in E. destruct E as [E _]. apply Nat.ltb_lt in E.
     destruct p as [|a [|b p]]; simpl in E; try lia. simpl. congruence.
   - destruct p; discriminate.
@@ -130,4 +130,289 @@ Proof.
   destruct (rev url) as [|c r] eqn:E.
   - apply (f_equal (@rev ascii)) in E. rewrite rev_involutive in E. simpl in E. congruence.
   - eexists. reflexivity.
+Qed.
+
+(* ------------------------------------------------- canonical paths, decomposed *)
+
+Lemma canonical_decomp w : canonical_path w = true -> w <> ["/"] ->
+  exists t body l, w = "/" :: t /\ split_seg t [] = body ++ [l] /\
+    Forall (fun x => real_seg x = true) body /\
+    (real_seg l = true \/ (l = [] /\ exists bb b, body = bb ++ [b])).
+Proof.
+  intros Hc Hne. destruct w as [|c t]; [discriminate|]. simpl in Hc. apply andb_true_iff in Hc.
+  destruct Hc as [Hs Hc]. apply Ascii.eqb_eq in Hs. subst c.
+  destruct t as [|a t']; [congruence|]. set (t := a :: t') in *.
+  pose proof (split_seg_nonnil t []) as Hnn. destruct (exists_last Hnn) as [body [l E]].
+  exists t, body, l. split; [reflexivity|]. split; [exact E|].
+  change (forallb real_seg (removelast (split_seg t [])) &&
+          (real_seg (last (split_seg t []) []) ||
+           negb (nonempty_b (last (split_seg t []) [])) && nonempty_b (removelast (split_seg t []))) = true) in Hc.
+  rewrite E, removelast_last, last_last in Hc. apply andb_true_iff in Hc. destruct Hc as [Hb Hl]. split.
+  - apply Forall_forall. rewrite forallb_forall in Hb. exact Hb.
+  - apply orb_true_iff in Hl. destruct Hl as [Hl|Hl]; [left; exact Hl|right].
+    apply andb_true_iff in Hl. destruct Hl as [Hl1 Hl2]. split.
+    + destruct l; [reflexivity|discriminate].
+    + destruct body as [|x body]; [discriminate|]. assert (Hx : x :: body <> []) by congruence.
+      destruct (exists_last Hx) as [bb [b Eb]]. exists bb, b. exact Eb.
+Qed.
+
+Lemma rooted_join_decomp (body : list bytes) (l : bytes) :
+  exists z, "/" :: join_seg (body ++ [l]) = z ++ "/" :: l.
+Proof.
+  destruct body as [|a body].
+  - exists []. reflexivity.
+  - exists ("/" :: join_seg (a :: body)). rewrite join_seg_app_last by congruence. reflexivity.
+Qed.
+
+Lemma real_seg_nonempty l : real_seg l = true -> l <> [].
+Proof. unfold real_seg. intros H. apply andb_true_iff in H. destruct H as [_ H]. destruct l; [discriminate|congruence]. Qed.
+
+Lemma has_colon_lacks l : has_colon l = false -> lacks ":" l = true.
+Proof.
+  unfold has_colon, lacks. induction l as [|c l IH]; [reflexivity|]. simpl. intros H.
+  apply orb_false_iff in H. destruct H as [Hc Hl]. rewrite Hc, (IH Hl). reflexivity.
+Qed.
+
+Lemma forallb_sub {A} (P : A -> bool) z c l : forallb P (z ++ c :: l) = true -> forallb P l = true.
+Proof. rewrite forallb_app. simpl. intros H. apply andb_true_iff in H. destruct H as [_ H]. apply andb_true_iff in H. tauto. Qed.
+
+Lemma forallb_imp {A} (P Q : A -> bool) l : (forall x, P x = true -> Q x = true) -> forallb P l = true -> forallb Q l = true.
+Proof. intros H. rewrite !forallb_forall. auto. Qed.
+
+Lemma wire_path_ok_seg z l : wire_path_ok (z ++ "/" :: l) = true ->
+  forallb is_ascii l = true /\ lacks "#" l = true /\ lacks "?" l = true.
+Proof.
+  intros H. apply forallb_sub in H. repeat split; revert H; apply forallb_imp; intros x Hx;
+    apply andb_true_iff in Hx; destruct Hx as [Hx H3]; apply andb_true_iff in Hx; destruct Hx as [H1 H2]; assumption.
+Qed.
+
+Lemma wire_query_ok_parts q : wire_query_ok q = true -> forallb is_ascii q = true /\ lacks "#" q = true.
+Proof.
+  intros H. split; revert H; apply forallb_imp; intros x Hx; apply andb_true_iff in Hx; tauto.
+Qed.
+
+Lemma qs_ascii q : forallb is_ascii q = true -> forallb is_ascii (qs q) = true.
+Proof. destruct q; [reflexivity|]. intros H. simpl qs. simpl. simpl in H. exact H. Qed.
+
+(* ---------------------------------- the repaired handler: Location always resolves *)
+
+Theorem location_resolves_fixed_proof m urlpath rawpath w q :
+  canonical_path w = true -> w <> ["/"] -> wire_path_ok w = true -> wire_query_ok q = true ->
+  exists loc, redirect_handler LocFixed m urlpath rawpath w q = ROk (redirect_code m) loc /\
+              location_ok w q loc = true.
+Proof.
+  intros Hc Hne Hw Hq. destruct (canonical_decomp w Hc Hne) as [t [body [l [Ew [E [Hb Hl]]]]]].
+  destruct (wire_query_ok_parts q Hq) as [Hqa Hqh].
+  assert (Et : t = join_seg (body ++ [l])) by (rewrite <- E; symmetry; apply join_split).
+  pose proof (split_seg_segs_slash_free t [] eq_refl) as Hsf. rewrite E in Hsf.
+  unfold redirect_handler.
+  destruct Hl as [Hl|[-> [bb [b ->]]]].
+  - destruct (rooted_join_decomp body l) as [z Ez]. rewrite <- Et in Ez.
+    apply Forall_app in Hsf. destruct Hsf as [_ Hsl]. inversion Hsl as [|? ? Hsl' _]. subst x l0.
+    rewrite Ew, Ez. rewrite (redirect_add LocFixed m z l q (real_seg_nonempty l Hl) Hsl').
+    eexists. split; [reflexivity|].
+    rewrite Ew, Ez in Hw. destruct (wire_path_ok_seg z l Hw) as [Ha [Hh Hqm]].
+    rewrite hex_escape_ascii.
+    + rewrite <- Ez. apply (loc_ok_add t body l); try assumption.
+      unfold ref_prefix. destruct (has_colon l) eqn:Ecol; [right; reflexivity|left].
+      split; [reflexivity|apply has_colon_lacks; exact Ecol].
+    + rewrite !forallb_app, Ha, (qs_ascii q Hqa). unfold ref_prefix. destruct (has_colon l); reflexivity.
+  - assert (Hsb := Hsf). apply Forall_app in Hsb. destruct Hsb as [Hsb _].
+    apply Forall_app in Hsb. destruct Hsb as [_ Hsl]. inversion Hsl as [|? ? Hsl' _]. subst x l.
+    apply Forall_app in Hb. destruct Hb as [Hbb Hbr]. inversion Hbr as [|? ? Hbr' _]. subst x l.
+    destruct (rooted_join_decomp bb b) as [z Ez].
+    assert (Ew' : w = (z ++ "/" :: b) ++ ["/"]).
+    { rewrite Ew, Et. rewrite (join_seg_app_last (bb ++ [b]) []) by (destruct bb; simpl; congruence).
+      rewrite <- Ez. reflexivity. }
+    rewrite Ew'. rewrite (redirect_remove LocFixed m z b q (real_seg_nonempty b Hbr') Hsl').
+    eexists. split; [reflexivity|].
+    rewrite Ew' in Hw. unfold wire_path_ok in Hw. rewrite forallb_app in Hw. apply andb_true_iff in Hw.
+    destruct Hw as [Hw _]. destruct (wire_path_ok_seg z b Hw) as [Ha [Hh Hqm]].
+    rewrite hex_escape_ascii.
+    + rewrite <- Ew', Ew. apply (loc_ok_remove t bb b); assumption.
+    + rewrite !forallb_app, Ha, (qs_ascii q Hqa). reflexivity.
+Qed.
+
+(* --------------------------------------------- net/url escape, segment-wise *)
+
+Lemma escape_byte_slash : escape_byte "/" = ["/"].
+Proof. reflexivity. Qed.
+
+Lemma escape_byte_slash_free c : Ascii.eqb c "/" = false -> slash_free (escape_byte c) = true.
+Proof. destruct c as [[] [] [] [] [] [] [] []]; intros H; try discriminate H; reflexivity. Qed.
+
+Lemma escape_byte_head c : exists r, escape_byte c = c :: r /\ should_escape c = false \/
+                                     escape_byte c = "%" :: r /\ should_escape c = true.
+Proof. unfold escape_byte. destruct (should_escape c); eexists; [right|left]; split; reflexivity. Qed.
+
+Lemma unreserved_not_escaped c : unreserved c = true -> escape_byte c = [c].
+Proof.
+  unfold unreserved, escape_byte, should_escape. intros H. apply orb_true_iff in H.
+  destruct (is_alnum c); [reflexivity|]. destruct H as [H|H]; [discriminate|]. rewrite H. reflexivity.
+Qed.
+
+Lemma escape_app a b : escape (a ++ b) = escape a ++ escape b.
+Proof. apply flat_map_app. Qed.
+
+Lemma split_seg_prefix e : slash_free e = true -> forall s cur, split_seg (e ++ s) cur = split_seg s (rev e ++ cur).
+Proof.
+  induction e as [|x e IH]; intros H s cur; [reflexivity|].
+  simpl in H. apply andb_true_iff in H. destruct H as [Hx He]. apply negb_true_iff in Hx.
+  simpl. rewrite Hx, (IH He). rewrite <- app_assoc. reflexivity.
+Qed.
+
+Lemma split_seg_escape p : split_seg (escape p) [] = map escape (split_seg p []).
+Proof.
+  induction p as [|c p IH]; [reflexivity|].
+  change (escape (c :: p)) with (escape_byte c ++ escape p).
+  destruct (Ascii.eqb_spec c "/") as [->|Hn].
+  - rewrite escape_byte_slash. simpl. rewrite IH. reflexivity.
+  - assert (Hc : Ascii.eqb c "/" = false) by (apply Ascii.eqb_neq; exact Hn).
+    rewrite (split_seg_prefix _ (escape_byte_slash_free c Hc)). simpl split_seg at 2. rewrite Hc.
+    rewrite split_seg_acc, (split_seg_acc p [c]). rewrite IH.
+    pose proof (split_seg_nonnil p []) as Hnn. destruct (split_seg p []) as [|x r]; [congruence|].
+    simpl map. rewrite app_nil_r, rev_involutive. simpl rev. reflexivity.
+Qed.
+
+Lemma escape_nil x : escape x = [] -> x = [].
+Proof.
+  destruct x as [|c x]; [reflexivity|]. change (escape (c :: x)) with (escape_byte c ++ escape x).
+  destruct (escape_byte_head c) as [r [[E _]|[E _]]]; rewrite E; discriminate.
+Qed.
+
+Lemma unreserved_percent : unreserved "%" = false.
+Proof. reflexivity. Qed.
+
+(* an element that needs no escaping is its own escaping's only preimage *)
+Lemma escape_unreserved x : forall l, escape x = l -> forallb unreserved l = true -> x = l.
+Proof.
+  induction x as [|c x IH]; intros l E Hu.
+  - simpl in E. congruence.
+  - change (escape (c :: x)) with (escape_byte c ++ escape x) in E.
+    destruct (escape_byte_head c) as [r [[Eb Hs]|[Eb Hs]]].
+    + unfold escape_byte in Eb. rewrite Hs in Eb. inversion Eb. subst r.
+      unfold escape_byte in E. rewrite Hs in E. simpl in E. subst l. simpl in Hu.
+      apply andb_true_iff in Hu. destruct Hu as [_ Hu]. f_equal. apply IH; [reflexivity|exact Hu].
+    + rewrite Eb in E. subst l. simpl in Hu. discriminate Hu.
+Qed.
+
+Lemma escape_rooted P t : escape P = "/" :: t -> exists P', P = "/" :: P' /\ escape P' = t.
+Proof.
+  destruct P as [|c P']; [discriminate|]. change (escape (c :: P')) with (escape_byte c ++ escape P').
+  intros E. destruct (escape_byte_head c) as [r [[Eb Hs]|[Eb Hs]]].
+  - rewrite Eb in E. inversion E. subst c. rewrite escape_byte_slash in Eb. inversion Eb. subst r.
+    exists P'. split; [reflexivity|]. reflexivity.
+  - rewrite Eb in E. discriminate.
+Qed.
+
+Lemma unreserved_facts l : forallb unreserved l = true ->
+  forallb is_ascii l = true /\ lacks "#" l = true /\ lacks "?" l = true /\ lacks ":" l = true.
+Proof.
+  intros H. repeat split; revert H; apply forallb_imp; intros c;
+    destruct c as [[] [] [] [] [] [] [] []]; intros Hc; try discriminate Hc; reflexivity.
+Qed.
+
+(* ------------------------------------------------------------ last_elem *)
+
+Lemma last_elem_snoc y c : last_elem (y ++ [c]) = if Ascii.eqb c "/" then last_seg y else last_seg (y ++ [c]).
+Proof.
+  unfold last_elem. rewrite rev_app_distr. simpl.
+  destruct (Ascii.eqb_spec c "/") as [->|Hn].
+  - rewrite rev_involutive. reflexivity.
+  - destruct c as [[] [] [] [] [] [] [] []]; try reflexivity. congruence.
+Qed.
+
+Lemma last_seg_rooted (body : list bytes) (l : bytes) :
+  Forall (fun x => slash_free x = true) (body ++ [l]) -> last_seg ("/" :: join_seg (body ++ [l])) = l.
+Proof.
+  intros Hf. unfold last_seg. change (split_seg ("/" :: join_seg (body ++ [l])) []) with ([] :: split_seg (join_seg (body ++ [l])) []).
+  rewrite split_join by (destruct body; simpl; congruence || assumption).
+  change ([] :: body ++ [l]) with (([] :: body) ++ [l]). apply last_last.
+Qed.
+
+(* ------------------- the pinned handler: Location resolves when the last element is unreserved *)
+
+Theorem location_resolves_partial_proof m w q urlpath rawpath escaped :
+  url_view w = Some (urlpath, rawpath) ->
+  canonical_path w = true -> w <> ["/"] -> forallb unreserved (last_elem w) = true -> wire_query_ok q = true ->
+  exists loc, redirect_handler LocAsIs m urlpath rawpath escaped q = ROk (redirect_code m) loc /\
+              location_ok w q loc = true.
+Proof.
+  intros Hv Hc Hne Hu Hq. destruct (canonical_decomp w Hc Hne) as [t [body [l [Ew [E [Hb Hl]]]]]].
+  destruct (wire_query_ok_parts q Hq) as [Hqa Hqh].
+  assert (Et : t = join_seg (body ++ [l])) by (rewrite <- E; symmetry; apply join_split).
+  pose proof (split_seg_segs_slash_free t [] eq_refl) as Hsf. rewrite E in Hsf.
+  (* what net/url hands to the handler *)
+  unfold url_view in Hv. rewrite Ew in Hv.
+  assert (Hv' : exists P, unescape ("/" :: t) = Some P /\ urlpath = P /\
+                          rawpath = if bytes_eqb (escape P) ("/" :: t) then [] else "/" :: t).
+  { destruct t as [|a t']; [|destruct (unescape ("/" :: a :: t')) as [P|]; [|discriminate]].
+    - simpl in Hv. inversion Hv. exists ["/"]. auto.
+    - inversion Hv. exists P. auto. }
+  clear Hv. destruct Hv' as [P [_ [-> ->]]].
+  unfold redirect_handler.
+  destruct Hl as [Hl|[-> [bb [b ->]]]].
+  - (* no trailing slash: the reference is  <l>/  *)
+    destruct (rooted_join_decomp body l) as [z Ez]. rewrite <- Et in Ez.
+    assert (Hsl' : slash_free l = true).
+    { apply Forall_app in Hsf. destruct Hsf as [_ Hsl]. inversion Hsl. assumption. }
+    pose proof (real_seg_nonempty l Hl) as Hlne.
+    assert (Hlast : last_elem w = l).
+    { destruct (slash_free_last l Hlne Hsl') as [x [c [El Hcs]]].
+      rewrite Ew, Ez, El. change (z ++ "/" :: x ++ [c]) with (z ++ ("/" :: x) ++ [c]). rewrite app_assoc.
+      rewrite last_elem_snoc, Hcs. rewrite <- app_assoc. change (("/" :: x) ++ [c]) with ("/" :: x ++ [c]).
+      rewrite <- El, <- Ez, Et. apply last_seg_rooted. exact Hsf. }
+    rewrite Hlast in Hu. destruct (unreserved_facts l Hu) as [Ha [Hh [Hqm Hcol]]].
+    assert (Hgoal : forall X zX, X = zX ++ "/" :: l ->
+              exists loc, redirect_with LocAsIs m (fix_trailing_slash X) q = ROk (redirect_code m) loc /\
+                          location_ok w q loc = true).
+    { intros X zX ->. rewrite (redirect_add LocAsIs m zX l q Hlne Hsl'). eexists. split; [reflexivity|].
+      rewrite hex_escape_ascii.
+      - rewrite Ew. apply (loc_ok_add t body l); try assumption. left. split; [reflexivity|exact Hcol].
+      - rewrite !forallb_app, Ha, (qs_ascii q Hqa). reflexivity. }
+    destruct (bytes_eqb (escape P) ("/" :: t)) eqn:Eesc.
+    + apply bytes_eqb_eq in Eesc. simpl nonempty. cbv iota.
+      destruct (escape_rooted P t Eesc) as [P' [-> EP']].
+      pose proof (split_seg_escape P') as Hse. rewrite EP', E in Hse.
+      pose proof (split_seg_nonnil P' []) as Hnn. destruct (exists_last Hnn) as [bodyP [lP EP]].
+      rewrite EP, map_app in Hse. simpl in Hse. apply app_inj_tail in Hse. destruct Hse as [_ Hle].
+      assert (lP = l) by (apply escape_unreserved; [symmetry; exact Hle|exact Hu]). subst lP.
+      destruct (rooted_join_decomp bodyP l) as [zP EzP].
+      apply (Hgoal _ zP). rewrite <- EzP, <- EP, join_split. reflexivity.
+    + simpl nonempty. cbv iota. apply (Hgoal _ z). exact Ez.
+  - (* trailing slash: the reference is  ../<b>  *)
+    assert (Hsb := Hsf). apply Forall_app in Hsb. destruct Hsb as [Hsb _].
+    assert (Hsb' := Hsb). apply Forall_app in Hsb'. destruct Hsb' as [_ Hsl]. inversion Hsl as [|? ? Hsl' _]. subst x l.
+    apply Forall_app in Hb. destruct Hb as [Hbb Hbr]. inversion Hbr as [|? ? Hbr' _]. subst x l.
+    pose proof (real_seg_nonempty b Hbr') as Hbne.
+    destruct (rooted_join_decomp bb b) as [z Ez].
+    assert (Ew' : w = (z ++ "/" :: b) ++ ["/"]).
+    { rewrite Ew, Et. rewrite (join_seg_app_last (bb ++ [b]) []) by (destruct bb; simpl; congruence).
+      rewrite <- Ez. reflexivity. }
+    assert (Hlast : last_elem w = b).
+    { rewrite Ew', last_elem_snoc. simpl. rewrite <- Ez. apply last_seg_rooted. exact Hsb. }
+    rewrite Hlast in Hu. destruct (unreserved_facts b Hu) as [Ha [Hh [Hqm Hcol]]].
+    assert (Hgoal : forall X zX, X = (zX ++ "/" :: b) ++ ["/"] ->
+              exists loc, redirect_with LocAsIs m (fix_trailing_slash X) q = ROk (redirect_code m) loc /\
+                          location_ok w q loc = true).
+    { intros X zX ->. rewrite (redirect_remove LocAsIs m zX b q Hbne Hsl'). eexists. split; [reflexivity|].
+      rewrite hex_escape_ascii.
+      - rewrite Ew. apply (loc_ok_remove t bb b); assumption.
+      - rewrite !forallb_app, Ha, (qs_ascii q Hqa). reflexivity. }
+    destruct (bytes_eqb (escape P) ("/" :: t)) eqn:Eesc.
+    + apply bytes_eqb_eq in Eesc. simpl nonempty. cbv iota.
+      destruct (escape_rooted P t Eesc) as [P' [-> EP']].
+      pose proof (split_seg_escape P') as Hse. rewrite EP', E in Hse.
+      pose proof (split_seg_nonnil P' []) as Hnn. destruct (exists_last Hnn) as [bodyP [lP EP]].
+      rewrite EP, map_app in Hse. simpl in Hse. apply app_inj_tail in Hse. destruct Hse as [Hbody Hle].
+      assert (lP = []) by (apply escape_nil; symmetry; exact Hle). subst lP.
+      assert (HbP : bodyP <> []) by (destruct bodyP; [destruct bb; discriminate|congruence]).
+      destruct (exists_last HbP) as [bbP [bP EbP]]. subst bodyP.
+      rewrite map_app in Hbody. simpl in Hbody. apply app_inj_tail in Hbody. destruct Hbody as [_ Hbe].
+      assert (bP = b) by (apply escape_unreserved; [symmetry; exact Hbe|exact Hu]). subst bP.
+      destruct (rooted_join_decomp bbP b) as [zP EzP].
+      apply (Hgoal _ zP). rewrite <- EzP.
+      rewrite <- (join_seg_app_last (bbP ++ [b]) []) by (destruct bbP; simpl; congruence).
+      rewrite <- EP, join_split. reflexivity.
+    + simpl nonempty. cbv iota. apply (Hgoal _ z). rewrite <- Ew'. exact Ew.
 Qed.
